@@ -481,7 +481,7 @@ class Backend:
 
 class HandleEnv:
     def __init__(self, ip, prog, backends, client_bytes, pool_over=None, client_over=None, settings_over=None, paused=False,
-                 pending_at=(), on_pending=None, boundaries=(), idle_timeout_ms=0, statement_timeout_ms=0):
+                 pending_at=(), on_pending=None, boundaries=(), idle_timeout_ms=0, statement_timeout_ms=0, shutdown=False):
         self.ip, self.prog = ip, prog
         if backends and isinstance(backends[0], (list, tuple)):
             shards = [list(x) for x in backends]
@@ -532,6 +532,8 @@ class HandleEnv:
         ip.env['frozen_clock'] = FROZEN      # no time passes: no health checks, no idle / ban expiry
         ip.env['no_timeouts'] = True         # the peers answer within every deadline
         self.idle_timeout_ms = idle_timeout_ms
+        self.shutdown_mode = shutdown      # the shutdown broadcast may arrive at any point (solver's choice at every select!)
+        self.shutdown_fired = False
         if idle_timeout_ms:
             # ... except that a client inside a transaction may stay silent longer than idle_client_in_transaction_timeout:
             # at every read inside the transaction loop the deadline may or may not fire (solver's choice)
@@ -636,7 +638,9 @@ class HandleEnv:
             v = deref(c.ip, p)
             return v.fields[0]
         ip.overrides.append((re.compile(r'^<(?:bb8::)?PooledConnection<.*> as (?:std::ops::)?(?:Deref|DerefMut)>::(deref|deref_mut)$'), conn_deref))
-        ip.overrides.append((re.compile(r'^tokio::macros::support::thread_rng_n$'), lambda c, n: BV(32, 0)))
+        # select! starts polling at a random branch: fixed to the first one, unless the shutdown signal is in play (then either)
+        ip.overrides.append((re.compile(r'^tokio::macros::support::thread_rng_n$'),
+                             lambda c, n: BV(32, c.ip.choose(2, 'select_start')) if env.shutdown_mode else BV(32, 0)))
         ip.overrides.append((re.compile(r'^tokio::sync::broadcast::Receiver::<.*>::recv$'), lambda c, r: Opaque('HookFuture', 'shutdown_recv', None)))
         ip.overrides.append((re.compile(r'^tokio::future::poll_fn::poll_fn::<'), lambda c, f: Opaque('PollFn', 'pollfn', f)))
 
@@ -670,7 +674,12 @@ class HandleEnv:
                 if co.tag == 'ready':
                     return EnumV(BV(64, 0), {'Ready': [co.data]}, 'Poll')
                 if co.tag == 'shutdown_recv':
-                    return EnumV(BV(64, 1), {}, 'Poll')          # no shutdown in this environment
+                    if env.shutdown_mode and not env.shutdown_fired and ip_.choose(2, 'shutdown_now') == 1:
+                        # tokio contract: recv() yields the broadcast value once it has been sent
+                        env.shutdown_fired = True
+                        env.events.append(('shutdown', [b.idx for b in env.backends if b.held], env.client_stream.pos))
+                        return EnumV(BV(64, 0), {'Ready': [EnumV(BV(64, 0), {'Ok': [unit()]}, 'Result')]}, 'Poll')
+                    return EnumV(BV(64, 1), {}, 'Poll')          # no (further) shutdown signal
                 if co.tag == 'notified':
                     # tokio contract: a Notified future completes once notify_waiters() is called after its creation
                     if env.notify_gen > co.data:
@@ -914,6 +923,16 @@ def judge(data, script, dec, expect_forward=None, cache_on=False, denied=None, e
                     # the backend has answered ReadyForQuery(idle), pgcat has read all of it
                     if after_ready and not unread and not copy_in and not unsynced and dec(st.z() == ord('I')):
                         V.append(('C04', 'H/idle-client-keeps-server', 'after its request %d completed outside a transaction the session still holds the connection of backend %d while it waits for the client' % (e[1] - 1, bi)))
+    # ---- shutdown (C17, the client's side): the signal is observed only between transactions (no server held), the client is then
+    # told "terminating connection due to administrator command" and the session ends; what it had sent before is served normally
+    for e in data['events']:
+        if e[0] == 'shutdown':
+            if e[1]:
+                V.append(('C17', 'H/shutdown-interrupts-transaction', 'the shutdown signal is acted on while the session holds backend %r (a transaction in progress must be allowed to finish)' % (e[1],)))
+            outm, _ = split_messages(data['client_out'], 'bytes written to the client')
+            last = conc(outm[-1]) if outm else None
+            if outcome != ('done', 'Ok') or last is None or last[:1] != b'E' or b'terminating connection due to administrator command' not in last:
+                V.append(('C17', 'H/shutdown-not-announced', 'after the shutdown signal the session does not end with the administrator-command error (outcome %r, last message %s)' % (outcome, show(outm[-1][:40]) if outm else None)))
     # ---- cancel map (C10): while the session holds a server the client's key maps to exactly that server; once the server is
     # released (transaction mode) or the client is gone, the key maps to nothing
     for e in data['events']:
